@@ -209,6 +209,31 @@ func genSMTP(r *Rng, tag string, n int) []pcmd {
 				out = append(out, pcmd{Data: []byte(msg), Want: []wantEv{{Field: "smtp.Subject", Value: subject}}, Note: "message " + u})
 			} else {
 				msg := "Subject: " + subject + "\r\n\r\n" + body + "\r\n"
+				if r.Chance(0.4) && len(msg) > 8 {
+					// chunked transfer: the mail arrives in two or three BDAT chunks (other sessions may get their turn
+					// between them); sometimes the client gives up before the last chunk
+					k := r.Range(1, len(msg)-2)
+					chunks := []string{msg[:k], msg[k:]}
+					if r.Chance(0.4) && len(chunks[1]) > 2 {
+						j := r.Range(1, len(chunks[1])-1)
+						chunks = []string{chunks[0], chunks[1][:j], chunks[1][j:]}
+					}
+					abandon := r.Chance(0.3) && i == n-1 // (only as the last thing of the session: a new transaction after an unfinished chunk sequence is a protocol error)
+					for ci, c := range chunks {
+						last := ci == len(chunks)-1
+						if last && abandon {
+							break
+						}
+						l := fmt.Sprintf("BDAT %d", len(c))
+						var want []wantEv
+						if last {
+							l += " LAST"
+							want = []wantEv{{Field: "smtp.Subject", Value: subject}}
+						}
+						out = append(out, pcmd{Data: []byte(l + "\r\n" + c), Want: want, Note: "bdat-chunk " + u})
+					}
+					continue
+				}
 				l := fmt.Sprintf("BDAT %d LAST", len(msg))
 				out = append(out, pcmd{Data: []byte(l + "\r\n" + msg), Want: []wantEv{{Field: "smtp.Subject", Value: subject}}, Note: "bdat " + u})
 			}
